@@ -22,6 +22,10 @@ pub struct NodeSpec {
     /// the module shuts itself down (without restart) when it handles its delayed message
     #[serde(default)]
     pub shuts_down: bool,
+    /// the module panics (non-catching stereotype) when it handles its delayed message: run() reports it, every other
+    /// module is still torn down exactly once
+    #[serde(default)]
+    pub panics: bool,
 }
 
 #[derive(Clone, Debug, Serialize, Deserialize)]
@@ -43,6 +47,7 @@ pub struct C12;
 struct M {
     stages: usize,
     shuts_down: bool,
+    panics: bool,
 }
 impl Module for M {
     fn num_sim_start_stages(&self) -> usize {
@@ -57,6 +62,9 @@ impl Module for M {
     }
     fn handle_message(&mut self, msg: Message) {
         net::log("handle", msg.header().id as i64, 0);
+        if self.panics && msg.header().id == 1 {
+            panic!("injected fault");
+        }
         if self.shuts_down && msg.header().id == 1 {
             current().shutdown();
         }
@@ -68,6 +76,7 @@ impl Module for M {
 }
 
 struct Tree {
+    panics: Vec<bool>,
     shuts_down: Vec<bool>,
     path: Vec<String>,
     parent: Vec<Option<usize>>,
@@ -82,6 +91,7 @@ fn build_tree(case: &Case) -> Tree {
     let mut depth: Vec<usize> = Vec::new();
     let mut stages = Vec::new();
     let mut shuts = Vec::new();
+    let mut panics = Vec::new();
     let mut prio = Vec::new();
     for (i, n) in case.nodes.iter().enumerate() {
         let par = match n.parent {
@@ -105,6 +115,7 @@ fn build_tree(case: &Case) -> Tree {
         depth.push(par.map_or(1, |p| depth[p] + 1));
         stages.push((n.stages % 4) as usize);
         shuts.push(n.shuts_down);
+        panics.push(n.panics);
         prio.push(n.prio);
     }
     // a valid insertion order: parents first, otherwise by priority
@@ -119,7 +130,7 @@ fn build_tree(case: &Case) -> Tree {
         inserted[next] = true;
         order.push(next);
     }
-    Tree { shuts_down: shuts, path, parent, stages, order }
+    Tree { panics, shuts_down: shuts, path, parent, stages, order }
 }
 
 /// DFS pre-order with siblings in creation (= insertion) order.
@@ -157,7 +168,7 @@ pub fn run_case(case: &Case) -> Result<(bool, Vec<&'static str>), Failure> {
     let mut bad_done = 0;
     let mut inner = || -> Result<(), Failure> {
         for (k, &i) in t.order.iter().enumerate() {
-            sim.node(t.path[i].as_str(), M { stages: t.stages[i], shuts_down: t.shuts_down[i] });
+            sim.node(t.path[i].as_str(), M { stages: t.stages[i], shuts_down: t.shuts_down[i], panics: t.panics[i] });
             // rejected insertions after this step
             for (at, bad) in &case.bad {
                 if idx(*at, n) != k {
@@ -167,7 +178,7 @@ pub fn run_case(case: &Case) -> Result<(bool, Vec<&'static str>), Failure> {
                 match bad {
                     Bad::Duplicate(j) => {
                         let dup = &t.path[t.order[idx(*j, k + 1)]];
-                        match catch(|| sim.node(dup.as_str(), M { stages: 1, shuts_down: false })) {
+                        match catch(|| sim.node(dup.as_str(), M { stages: 1, shuts_down: false, panics: false })) {
                             Ok(()) => vfail!("duplicate-path-accepted", "node '{dup}' was inserted twice without a panic"),
                             Err((msg, _)) => vensure!(
                                 msg.contains("allready exists"),
@@ -179,7 +190,7 @@ pub fn run_case(case: &Case) -> Result<(bool, Vec<&'static str>), Failure> {
                     Bad::Orphan(j) => {
                         let base = &t.path[t.order[idx(*j, k + 1)]];
                         let orphan = format!("{base}.nope.child");
-                        match catch(|| sim.node(orphan.as_str(), M { stages: 1, shuts_down: false })) {
+                        match catch(|| sim.node(orphan.as_str(), M { stages: 1, shuts_down: false, panics: false })) {
                             Ok(()) => vfail!("orphan-accepted", "node '{orphan}' was inserted although its parent does not exist"),
                             Err((msg, _)) => vensure!(
                                 msg.contains("does not exist"),
@@ -237,7 +248,16 @@ pub fn run_case(case: &Case) -> Result<(bool, Vec<&'static str>), Failure> {
     let log = net::log_take();
     let ok = res.is_ok();
     drop(res);
-    vensure!(ok, "run-returned-error", "run() returned an error");
+    // a module that reaches its delayed message and panics there makes run() return an error, and only that
+    let panicked: Vec<bool> = (0..n).map(|i| t.panics[i] && t.stages[i] >= 1).collect();
+    let any_panic = panicked.iter().any(|p| *p);
+    vensure!(
+        ok != any_panic,
+        "run-returned-error",
+        "run() returned {} although {} module panicked",
+        if ok { "Ok" } else { "an error" },
+        if any_panic { "a" } else { "no" }
+    );
 
     // expected start sequence
     let pre = preorder(&t);
@@ -275,11 +295,16 @@ pub fn run_case(case: &Case) -> Result<(bool, Vec<&'static str>), Failure> {
     for r in log.iter().filter(|r: &&Rec| r.kind == "end") {
         *ends.entry(r.path.clone()).or_default() += 1;
     }
-    for p in &t.path {
+    for (i, p) in t.path.iter().enumerate() {
         let c = ends.get(p).copied().unwrap_or(0);
-        vensure!(c == 1, "end-count", "at_sim_end of '{p}' was called {c} times");
+        if panicked[i] {
+            // whether a module that was deactivated by its own panic is still torn down is C13's subject
+            vensure!(c <= 1, "end-count", "at_sim_end of the panicked module '{p}' was called {c} times");
+        } else {
+            vensure!(c == 1, "end-count", "at_sim_end of '{p}' was called {c} times{}", if any_panic { " (another module panicked during the run)" } else { "" });
+        }
     }
-    vensure!(ends.len() == n, "end-count", "at_sim_end called for unknown modules: {:?}", ends.keys());
+    vensure!(ends.keys().all(|k| t.path.contains(k)), "end-count", "at_sim_end called for unknown modules: {:?}", ends.keys());
     let handles = log.iter().filter(|r| r.kind == "handle").count();
     let want_handles = 2 * t.stages.iter().filter(|s| **s >= 1).count();
     vensure!(handles == want_handles, "handle-count", "{handles} messages handled, expected {want_handles}");
@@ -307,6 +332,9 @@ pub fn run_case(case: &Case) -> Result<(bool, Vec<&'static str>), Failure> {
     }
     if n >= 10 {
         labels.push("nodes>=10");
+    }
+    if any_panic {
+        labels.push("a-module-panicked-during-the-run");
     }
     if (0..n).any(|i| t.shuts_down[i] && t.stages[i] >= 1) {
         labels.push("module-shut-down-before-the-end");
@@ -339,8 +367,8 @@ impl Prop for C12 {
     }
     fn strategy(tier: Tier) -> BoxedStrategy<Case> {
         let max = tier.pick(16, 25);
-        let node = (proptest::option::weighted(0.7, any::<u16>()), 0u8..NAMES.len() as u8, 0u8..4, any::<u16>(), proptest::bool::weighted(0.15))
-            .prop_map(|(parent, name, stages, prio, shuts_down)| NodeSpec { parent, name, stages, prio, shuts_down });
+        let node = (proptest::option::weighted(0.7, any::<u16>()), 0u8..NAMES.len() as u8, 0u8..4, any::<u16>(), proptest::bool::weighted(0.15), proptest::bool::weighted(0.04))
+            .prop_map(|(parent, name, stages, prio, shuts_down, panics)| NodeSpec { parent, name, stages, prio, shuts_down, panics });
         let bad = (any::<u16>(), prop_oneof![any::<u16>().prop_map(Bad::Duplicate), any::<u16>().prop_map(Bad::Orphan)]);
         (proptest::collection::vec(node, 1..max), proptest::collection::vec(bad, 0..3))
             .prop_map(|(nodes, bad)| Case { nodes, bad })
